@@ -747,6 +747,32 @@ def _expn(ex, st, args, kwargs, node):
     return ex.map1(lambda t: ex.c.expn(n, t), x, st, kind='real')
 
 
+@model('numpy.histogram')
+def _histogram(ex, st, args, kwargs, node):
+    """assumed: np.histogram(x, edges, weights=w)[0][k] = sum of w_j (1 without weights) over the points with
+    edges[k] <= x_j < edges[k+1]; the last bin also takes x_j == edges[-1].  (edges non-decreasing: call-site obligation)"""
+    c = ex.c
+    x, e = arr(ex, st, args[0]), arr(ex, st, args[1] if len(args) > 1 else kwargs.get('bins'))
+    w = arr(ex, st, kwargs['weights']) if kwargs.get('weights') is not None else None
+    if x is None or e is None or x.ndim != 1 or e.ndim != 1 or (w is not None and w.ndim != 1) or len(args) > 2:
+        raise Unsupported('np.histogram form')
+    N, M = x.shape[0], e.shape[0]
+    B = _minus1(M)
+    if 'sorted' in ex.safety:
+        ex.oblige('safe.sorted', st, c.Forall(0, B, lambda i: e.elem((i,)) <= e.elem((_plus1(i),))), node)
+
+    def inbin(k, j):
+        xj = to_real(x.elem((j,)))
+        lo, hi = to_real(e.elem((k,))), to_real(e.elem((_plus1(k),)))
+        lastbin = (to_int(k) == to_int(B) - 1) if (is_sym(k) or is_sym(B)) else (k == B - 1)
+        return z3.And(lo <= xj, z3.Or(xj < hi, z3.And(lastbin, xj == hi)))
+
+    def el(ix):
+        k = ix[0]
+        return c.Sum(0, N, lambda j: z3.If(inbin(k, j), to_real(w.elem((j,))) if w is not None else z3.RealVal(1), z3.RealVal(0)))
+    return (st.alloc(c, Arr((B,), el, 'real')), args[1] if len(args) > 1 else kwargs.get('bins'))
+
+
 @model('numpy.gradient')
 def _gradient(ex, st, args, kwargs, node):
     """assumed: np.gradient of a 1-D array with unit spacing (n >= 2, a call-site obligation): one-sided differences at the ends,
